@@ -154,6 +154,28 @@ pub fn failing_calls(rng: &mut Rng, spec: &SpecTable, h: &[WOp], p: usize) -> Ve
             v.push((WOp::Write(TagV::new(m.id, Val::Full(vec![TagV::new(nm.id, Val::Start)])), Opt::Default), "UnexpectedClosingTag", "full-with-unclosed-start"));
         }
     }
+    // 9. a Full master (allowed here) whose children close more than they open: its own End among them, and then
+    //    possibly the Ends of enclosing masters too. Each such child is a legal End at the moment it is written; the
+    //    call fails when the master's own End finds something else (or nothing) open.
+    if !ok_m.is_empty() {
+        let m = **rng.pick(&ok_m);
+        let mut inner_chain = chain.clone();
+        inner_chain.push(m.id);
+        let good: Vec<_> = leaves.iter().filter(|e| spec.allowed(e.id, &inner_chain)).collect();
+        let mut cs: Vec<TagV> = Vec::new();
+        for _ in 0..rng.range(0, 2) {
+            if !good.is_empty() {
+                let g = **rng.pick(&good);
+                cs.push(TagV::new(g.id, leaf_val(rng, g.ty)));
+            }
+        }
+        cs.push(TagV::new(m.id, Val::End));
+        let extra = rng.range(0, chain.len().min(2));
+        for k in 0..extra {
+            cs.push(TagV::new(chain[chain.len() - 1 - k], Val::End));
+        }
+        v.push((WOp::Write(TagV::new(m.id, Val::Full(cs)), Opt::Default), "UnexpectedClosingTag", "full-closing-more-than-it-opens"));
+    }
     v
 }
 
